@@ -190,7 +190,7 @@ pub fn conforming(r: &mut Rng, variant: u8) -> Vec<(String, JV)> {
     let nunk = *r.pick(&[0u64, 0, 1, 1, 2, 4]);
     for _ in 0..nunk {
         let k = if r.chance(1, 3) {
-            r.pick(&["verification_uris", "Verification_Uri", "verification-uri", "interval ", "expires", "device_code\0", "INTERVAL", "error", "message", "x", "", "é", "verification_url_complete"]).to_string()
+            (if r.chance(1, 2) { *r.pick(crate::ops::common::ALIAS_LIKE_MEMBER_NAMES) } else { *r.pick(&["verification_uris", "Verification_Uri", "verification-uri", "interval ", "expires", "device_code\0", "INTERVAL", "error", "message", "x", "", "é", "verification_url_complete"]) }).to_string()
         } else {
             gen::mixed(r)
         };
@@ -281,7 +281,7 @@ fn mutations(base: &DevCase) -> Vec<DevCase> {
     out
 }
 
-fn malformed(r: &mut Rng) -> DevCase {
+pub(crate) fn malformed(r: &mut Rng) -> DevCase {
     let mut c = base_case(r);
     let mut ms = match &c.doc {
         JV::Obj(ms) => ms.clone(),
